@@ -269,6 +269,9 @@ func TestC08(t *testing.T) {
 			erPool = append(append(append([]string(nil), erKinds...), saltedKinds...), saltedKinds...)
 		}
 		erAny := func() string {
+			if saltedProtocol(sc.Protocol) && rng.Intn(3) == 0 {
+				return saltedKinds[rng.Intn(len(saltedKinds))]
+			}
 			if rng.Intn(2) == 0 {
 				return "er-valid"
 			}
@@ -399,6 +402,11 @@ func TestC08(t *testing.T) {
 		erWhileWaiting := false
 		usedPluginWait := false
 
+		// admissionSeen: the proxy's side already shows this session's client as a player
+		admissionSeen := func() bool {
+			return rec.has("postlogin:"+sc.Name) || rec.has("postlogin:"+otherNm) ||
+				h.P.PlayerByName(sc.Name) != nil || h.P.PlayerByName(otherNm) != nil
+		}
 		waitFor := func(cond func() bool) { // until the session is decided or cond holds
 			deadline := time.Now().Add(10 * time.Second)
 			for time.Now().Before(deadline) {
@@ -406,6 +414,12 @@ func TestC08(t *testing.T) {
 					return
 				}
 				if cond != nil && cond() {
+					return
+				}
+				// a refused client that is registered / whose PostLogin fired is admitted: decided
+				// (it may be unable to read the login success, e.g. under a cipher it did
+				// not switch on)
+				if st == "dead" && admissionSeen() {
 					return
 				}
 				time.Sleep(100 * time.Microsecond)
@@ -698,7 +712,7 @@ func TestC08(t *testing.T) {
 					closedInTime = true
 					break
 				}
-				if c.GotLoginSuccess() || rec.has("postlogin:"+sc.Name) || rec.has("postlogin:"+otherNm) {
+				if c.GotLoginSuccess() || admissionSeen() {
 					break
 				}
 				time.Sleep(100 * time.Microsecond)
@@ -771,6 +785,16 @@ func TestC08(t *testing.T) {
 		if erWhileWaiting {
 			r.Count("encryption_request_seen_while_plugin_replies_outstanding_not_judged", 1)
 		}
+		// an observed admission is a fact, whatever else did or did not happen in time
+		if admitted && !allowed {
+			kind := "admitted-without-valid-exchange"
+			if validExchange {
+				kind = "admitted-despite-session-server:" + sc.Session
+			} else if deadWhy != "" {
+				kind += ":" + deadWhy
+			}
+			r.Violation(kind, "client was sent login success / registered although the online-mode conditions were not met", wit())
+		}
 		if mustClose && !closedInTime {
 			// Did the proxy answer the illegal packet with more login protocol instead of
 			// closing? In expect-er (request received) and wait-plugin (all questions
@@ -797,6 +821,10 @@ func TestC08(t *testing.T) {
 				stalled = true
 			}
 		}
+		if stalled && admitted && !allowed {
+			c.Close() // decided above
+			continue
+		}
 		if stalled {
 			stalls++
 			r.Inconclusive(fmt.Sprintf("session %d did not settle within the watchdog (%v)", i, sc.Ops))
@@ -806,15 +834,6 @@ func TestC08(t *testing.T) {
 				break
 			}
 			continue
-		}
-		if admitted && !allowed {
-			kind := "admitted-without-valid-exchange"
-			if validExchange {
-				kind = "admitted-despite-session-server:" + sc.Session
-			} else if deadWhy != "" {
-				kind += ":" + deadWhy
-			}
-			r.Violation(kind, "client was sent login success / registered although the online-mode conditions were not met", wit())
 		}
 		if admitted && allowed && !forcedOffline {
 			// session server asked exactly once, for the reference digest and this username
